@@ -47,6 +47,17 @@ struct History {
 
 type Set = BTreeMap<String, TplS>;
 
+/// Worker processes keep, in a small file, the calls they are about to make on the engine: when a
+/// worker aborts (stack overflow) or hangs, the parent reads the culprit history from it.
+static ATTEMPT_FILE: std::sync::OnceLock<std::path::PathBuf> = std::sync::OnceLock::new();
+
+fn note_attempt(prefixes: &[String], steps: &[Step]) {
+    if let Some(path) = ATTEMPT_FILE.get() {
+        let h = History { prefixes: prefixes.to_vec(), perm2: 0, perm3: 0, steps: steps.to_vec() };
+        let _ = std::fs::write(path, serde_json::to_string(&h).unwrap_or_default());
+    }
+}
+
 const NAMES: [&str; 8] = ["a.html", "b", "c", "th/c", "alt/c", "d.xml", "e", "th/e"];
 const TOP_BLOCKS: [&str; 2] = ["x", "y"];
 /// the only block name that is ever nested; blocks of this name never contain blocks, and `x`/`y`
@@ -319,6 +330,13 @@ fn suffix_match(suffixes: &[String], name: &str) -> bool {
 
 /// A fresh instance with the same prefixes and suffixes, given `set` in ONE batch.
 fn fresh_snapshot(prefixes: &[String], suffixes: &[String], set: &Set, reverse: bool) -> Result<Snap, String> {
+    if ATTEMPT_FILE.get().is_some() {
+        let mut items: Vec<TplS> = set.values().cloned().collect();
+        if reverse {
+            items.reverse();
+        }
+        note_attempt(prefixes, &[Step::Escape(suffixes.to_vec()), Step::Add(items)]);
+    }
     let r = catch(AssertUnwindSafe(|| {
         let mut t = engine(prefixes);
         t.autoescape_on(suffixes.to_vec());
@@ -339,6 +357,9 @@ fn fresh_snapshot(prefixes: &[String], suffixes: &[String], set: &Set, reverse: 
 
 /// does a fresh instance accept this set? (guides the generator only; not an oracle)
 fn accepts(prefixes: &[String], set: &Set) -> bool {
+    if ATTEMPT_FILE.get().is_some() {
+        note_attempt(prefixes, &[Step::Add(set.values().cloned().collect())]);
+    }
     catch(AssertUnwindSafe(|| {
         let mut t = engine(prefixes);
         t.add_raw_templates(set.values().map(|t| (t.name.clone(), t.source())).collect::<Vec<_>>()).is_ok()
@@ -348,7 +369,7 @@ fn accepts(prefixes: &[String], set: &Set) -> bool {
 
 // ---------------------------------------------------------------- running a history
 
-#[derive(Clone, Debug, Default, serde::Serialize)]
+#[derive(Clone, Debug, Default, serde::Serialize, serde::Deserialize)]
 struct Rec {
     /// "ok" | `canon_err` line | "panic …"
     result: String,
@@ -363,7 +384,7 @@ struct Rec {
     escape: String,
 }
 
-#[derive(Clone, Debug, serde::Serialize)]
+#[derive(Clone, Debug, serde::Serialize, serde::Deserialize)]
 struct Failure {
     step: usize,
     /// "fresh" | "identity" | "escape" | "acceptance" | "panic"
@@ -385,6 +406,8 @@ struct Runner {
     hasher: std::collections::hash_map::DefaultHasher,
     /// hashes of (prefixes, steps up to and including an Add that reached finalize_templates)
     keys: Vec<u64>,
+    /// the steps applied so far
+    done: Vec<Step>,
 }
 
 impl Runner {
@@ -406,6 +429,7 @@ impl Runner {
             stats: BTreeMap::new(),
             hasher,
             keys: Vec::new(),
+            done: Vec::new(),
         }
     }
 
@@ -418,6 +442,10 @@ impl Runner {
     }
 
     fn apply(&mut self, step: &Step, intent: &str) {
+        self.done.push(step.clone());
+        if ATTEMPT_FILE.get().is_some() {
+            note_attempt(&self.prefixes, &self.done);
+        }
         let idx = self.recs.len();
         let before = std::mem::take(&mut self.snap);
         let cur_before = self.cur.clone();
@@ -613,6 +641,7 @@ impl Runner {
     }
 }
 
+#[derive(Clone, serde::Serialize, serde::Deserialize)]
 struct HistoryRun {
     history: History,
     intents: Vec<String>,
@@ -1546,6 +1575,19 @@ fn replay(path: &str, exe: &std::path::Path, thorough: bool) {
     if let Err(e) = &model {
         println!("model: {e}");
     }
+    // first in a worker process: a history on which the engine aborts or hangs must not take the
+    // replay down
+    let probe = run_fixed_safe(&h, thorough);
+    if let Some(f) = probe.failures.iter().find(|f| f.kind == "abort") {
+        println!("implementation: {} — in a worker process, on the last call of the history below", f.desc);
+        for (i, s) in h.steps.iter().enumerate() {
+            println!("step {i}: {}", describe_step(s));
+        }
+        if let Ok(m) = &model {
+            println!("model: {:?}", m.iter().map(|(r, _)| r.clone()).collect::<Vec<_>>());
+        }
+        return;
+    }
     let mut runner = Runner::new(&h.prefixes, thorough);
     let mut observed: Vec<Vec<(String, String)>> = Vec::new();
     for s in &h.steps {
@@ -1608,6 +1650,223 @@ fn replay(path: &str, exe: &std::path::Path, thorough: bool) {
     }
 }
 
+// ---------------------------------------------------------------- worker processes
+
+/// the jobs of a run: exhaustive short histories, then random histories (one PRNG)
+fn build_jobs(seed: u64, thorough: bool) -> (Vec<Job>, usize, usize, usize, usize) {
+    let max_steps = if thorough { 12 } else { 8 };
+    let n_random = if thorough { 120_000 } else { 2000 };
+    let exh_len = if thorough { 4 } else { 3 };
+    let mut jobs: Vec<Job> = Vec::new();
+    let exh = exhaustive_histories(exh_len);
+    let n_exh = exh.len();
+    for (h, intents) in exh {
+        jobs.push(Job::Fixed(h, intents));
+    }
+    let mut rng = Rng::new(seed);
+    for i in 0..n_random {
+        jobs.push(Job::Random(rng.fork(), i as u64));
+    }
+    (jobs, n_exh, n_random, max_steps, exh_len)
+}
+
+fn start_watchdog(progress: std::sync::Arc<std::sync::atomic::AtomicU64>, secs: u64) {
+    std::thread::spawn(move || {
+        let t0 = Instant::now();
+        loop {
+            std::thread::sleep(std::time::Duration::from_millis(200));
+            let last = progress.load(std::sync::atomic::Ordering::Relaxed);
+            if t0.elapsed().as_millis() as u64 > last + secs * 1000 {
+                std::process::exit(3);
+            }
+        }
+    });
+}
+
+/// worker: runs the jobs `start, start + stride, … < hi`; everything that touches the engine
+/// happens in workers.  `at <j>` announces a job, `<j> \t <HistoryRun as JSON>` ends it.
+fn child_wave(thorough: bool, seed: u64, hi: usize, start: usize, stride: usize, attempt_file: &str) {
+    use std::io::Write;
+    let _ = ATTEMPT_FILE.set(std::path::PathBuf::from(attempt_file));
+    let (jobs, _, _, max_steps, _) = build_jobs(seed, thorough);
+    let progress = std::sync::Arc::new(std::sync::atomic::AtomicU64::new(0));
+    start_watchdog(progress.clone(), 30);
+    let t0 = Instant::now();
+    let stdout = std::io::stdout();
+    let mut w = std::io::BufWriter::new(stdout.lock());
+    let mut j = start;
+    while j < hi.min(jobs.len()) {
+        progress.store(t0.elapsed().as_millis() as u64, std::sync::atomic::Ordering::Relaxed);
+        writeln!(w, "at {j}").unwrap();
+        w.flush().unwrap();
+        let run = match &jobs[j] {
+            Job::Fixed(h, intents) => run_fixed(h, intents, thorough, true),
+            Job::Random(rng, i) => run_random(rng.clone(), *i, max_steps, thorough),
+        };
+        writeln!(w, "{j}\t{}", serde_json::to_string(&run).unwrap()).unwrap();
+        j += stride;
+    }
+    w.flush().unwrap();
+}
+
+/// worker: runs the history of a file
+fn child_one(path: &str, thorough: bool) {
+    let h: History = serde_json::from_str(&std::fs::read_to_string(path).expect("history file")).expect("history json");
+    let progress = std::sync::Arc::new(std::sync::atomic::AtomicU64::new(0));
+    start_watchdog(progress, 30);
+    println!("{}", serde_json::to_string(&run_fixed(&h, &[], thorough, false)).unwrap());
+}
+
+/// run this binary as a child with a deadline: (status, stdout)
+fn run_child(args: &[String], timeout: std::time::Duration) -> (String, String) {
+    use std::io::Read;
+    use std::process::{Command, Stdio};
+    let exe = std::env::current_exe().expect("own path");
+    let mut child = Command::new(exe).args(args).stdin(Stdio::null()).stdout(Stdio::piped()).stderr(Stdio::null()).spawn().expect("spawn child");
+    let mut stdout = child.stdout.take().unwrap();
+    let reader = std::thread::spawn(move || {
+        let mut s = String::new();
+        let _ = stdout.read_to_string(&mut s);
+        s
+    });
+    let t0 = Instant::now();
+    let status = loop {
+        match child.try_wait() {
+            Ok(Some(st)) => break if st.success() { "exit0".to_string() } else if st.code() == Some(3) { "timeout (no answer within 30 s)".to_string() } else { format!("died {st}") },
+            Ok(None) => {
+                if t0.elapsed() > timeout {
+                    let _ = child.kill();
+                    let _ = child.wait();
+                    break "timeout".to_string();
+                }
+                std::thread::sleep(std::time::Duration::from_millis(5));
+            }
+            Err(e) => break format!("wait failed {e}"),
+        }
+    };
+    (status, reader.join().unwrap_or_default())
+}
+
+fn scratch_dir() -> std::path::PathBuf {
+    let d = std::env::temp_dir().join(format!("c10-{}", std::process::id()));
+    let _ = std::fs::create_dir_all(&d);
+    d
+}
+
+struct WaveOut {
+    /// (job index, run)
+    runs: Vec<(usize, HistoryRun)>,
+    /// (the calls the worker was making when it died, worker status)
+    aborted: Vec<(History, String)>,
+    notes: Vec<String>,
+}
+
+/// the jobs `lo..hi` in worker processes; a worker that dies is restarted after its culprit
+fn run_wave(thorough: bool, seed: u64, lo: usize, hi: usize, threads: usize) -> WaveOut {
+    let dir = scratch_dir();
+    let per: Vec<WaveOut> = std::thread::scope(|s| {
+        let hs: Vec<_> = (0..threads)
+            .map(|k| {
+                let dir = dir.clone();
+                s.spawn(move || {
+                    let mut out = WaveOut { runs: Vec::new(), aborted: Vec::new(), notes: Vec::new() };
+                    let attempt = dir.join(format!("attempt-{k}.json"));
+                    let mut start = lo + k;
+                    while start < hi {
+                        let _ = std::fs::remove_file(&attempt);
+                        let a: Vec<String> = vec![
+                            "--child".into(),
+                            "wave".into(),
+                            if thorough { "thorough".into() } else { "quick".into() },
+                            seed.to_string(),
+                            hi.to_string(),
+                            start.to_string(),
+                            threads.to_string(),
+                            attempt.to_string_lossy().to_string(),
+                        ];
+                        let (status, text) = run_child(&a, std::time::Duration::from_secs(if thorough { 3000 } else { 300 }));
+                        let mut last_at: Option<usize> = None;
+                        for line in text.lines() {
+                            if let Some(rest) = line.strip_prefix("at ") {
+                                last_at = rest.parse().ok();
+                                continue;
+                            }
+                            let Some((j, json)) = line.split_once('\t') else { continue };
+                            let Ok(j) = j.parse::<usize>() else { continue };
+                            match serde_json::from_str::<HistoryRun>(json) {
+                                Ok(run) => {
+                                    if last_at == Some(j) {
+                                        last_at = None;
+                                    }
+                                    out.runs.push((j, run));
+                                }
+                                Err(e) => out.notes.push(format!("worker {k}: unreadable result of job {j}: {e}")),
+                            }
+                        }
+                        if status == "exit0" {
+                            break;
+                        }
+                        match last_at {
+                            Some(j) => {
+                                match std::fs::read_to_string(&attempt).ok().and_then(|t| serde_json::from_str::<History>(&t).ok()) {
+                                    Some(h) => out.aborted.push((h, status.clone())),
+                                    None => out.notes.push(format!("worker {k} {status} on job {j} before any call on the engine was recorded")),
+                                }
+                                if out.aborted.len() >= 4 {
+                                    out.notes.push(format!("worker {k}: given up after 4 culprits, jobs from {} on (stride {threads}, up to {hi}) were not run", j + threads));
+                                    break;
+                                }
+                                start = j + threads;
+                            }
+                            None => {
+                                out.notes.push(format!("worker {k} ended abnormally ({status}) without naming a job"));
+                                break;
+                            }
+                        }
+                    }
+                    out
+                })
+            })
+            .collect();
+        hs.into_iter().map(|h| h.join().unwrap()).collect()
+    });
+    let mut all = WaveOut { runs: Vec::new(), aborted: Vec::new(), notes: Vec::new() };
+    for o in per {
+        all.runs.extend(o.runs);
+        all.aborted.extend(o.aborted);
+        all.notes.extend(o.notes);
+    }
+    all.runs.sort_by_key(|r| r.0);
+    all
+}
+
+/// `run_fixed` in a worker process: when the engine aborts or hangs the run carries one failure
+/// of kind "abort" (the parent never calls the engine on a generated history)
+fn run_fixed_safe(h: &History, thorough: bool) -> HistoryRun {
+    let path = scratch_dir().join(format!("one-{:?}.json", std::thread::current().id()).replace(['(', ')'], ""));
+    std::fs::write(&path, serde_json::to_string(h).unwrap()).unwrap();
+    let (status, text) = run_child(
+        &["--child".into(), "one".into(), path.to_string_lossy().to_string(), if thorough { "thorough".into() } else { "quick".into() }],
+        std::time::Duration::from_secs(90),
+    );
+    let _ = std::fs::remove_file(&path);
+    if status == "exit0" {
+        if let Ok(run) = serde_json::from_str::<HistoryRun>(text.trim()) {
+            return run;
+        }
+    }
+    HistoryRun {
+        history: h.clone(),
+        intents: vec![],
+        recs: vec![Rec { result: format!("no answer: worker {status}"), ..Default::default() }; h.steps.len()],
+        failures: vec![Failure { step: h.steps.len().saturating_sub(1), kind: "abort".into(), desc: format!("the engine did not return (worker {status})") }],
+        oracle_checks: 0,
+        stats: BTreeMap::new(),
+        keys: vec![],
+        exhaustive: false,
+    }
+}
+
 // ---------------------------------------------------------------- main
 
 enum Job {
@@ -1622,6 +1881,15 @@ fn main() {
     let env = Env::from_env();
     let exe = driver::driver_path(&env.verif_dir, "drv_c10");
     let thorough = !env.quick();
+    let args: Vec<String> = std::env::args().collect();
+    if let Some(i) = args.iter().position(|a| a == "--child") {
+        match args[i + 1].as_str() {
+            "wave" => child_wave(args[i + 2] == "thorough", args[i + 3].parse().unwrap(), args[i + 4].parse().unwrap(), args[i + 5].parse().unwrap(), args[i + 6].parse().unwrap(), &args[i + 7]),
+            "one" => child_one(&args[i + 2], args[i + 3] == "thorough"),
+            _ => {}
+        }
+        return;
+    }
 
     if let Some(path) = replay_path() {
         replay(&path, &exe, thorough);
@@ -1631,21 +1899,7 @@ fn main() {
     let t0 = Instant::now();
     let mut report = Report::new("C10");
     let threads = std::thread::available_parallelism().map(|n| n.get()).unwrap_or(8).min(16);
-    let max_steps = env.budget(8, 12);
-    let n_random = env.budget(2000, 120_000);
-    let exh_len = env.budget(3, 4);
-
-    // ---- the jobs: exhaustive short histories, then random histories (one PRNG)
-    let mut jobs: Vec<Job> = Vec::new();
-    let exh = exhaustive_histories(exh_len);
-    let n_exh = exh.len();
-    for (h, intents) in exh {
-        jobs.push(Job::Fixed(h, intents));
-    }
-    let mut rng = Rng::new(env.seed);
-    for i in 0..n_random {
-        jobs.push(Job::Random(rng.fork(), i as u64));
-    }
+    let (jobs, n_exh, n_random, max_steps, exh_len) = build_jobs(env.seed, thorough);
 
     // debugging aid: `C10_DUMP_HISTORY=<i>` prints the i-th random history of this seed / tier as
     // a replay file and stops
@@ -1671,28 +1925,19 @@ fn main() {
 
     let wave = 5000;
     let (mut t_impl, mut t_model) = (0f64, 0f64);
-    let mut job_iter = jobs.into_iter().peekable();
-    let mut global_idx = 0usize;
-    while job_iter.peek().is_some() {
-        let batch: Vec<Job> = job_iter.by_ref().take(wave).collect();
+    let total_jobs = jobs.len();
+    drop(jobs);
+    let mut aborted: Vec<(History, String)> = Vec::new();
+    let mut lo = 0usize;
+    while lo < total_jobs {
+        let hi = (lo + wave).min(total_jobs);
         let tw = Instant::now();
-        let chunk = batch.len().div_ceil(threads).max(1);
-        let runs: Vec<HistoryRun> = std::thread::scope(|s| {
-            let hs: Vec<_> = batch
-                .chunks(chunk)
-                .map(|js| {
-                    s.spawn(move || {
-                        js.iter()
-                            .map(|j| match j {
-                                Job::Fixed(h, intents) => run_fixed(h, intents, thorough, true),
-                                Job::Random(rng, i) => run_random(rng.clone(), *i, max_steps, thorough),
-                            })
-                            .collect::<Vec<_>>()
-                    })
-                })
-                .collect();
-            hs.into_iter().flat_map(|h| h.join().unwrap()).collect()
-        });
+        let wave_out = run_wave(thorough, env.seed, lo, hi, threads);
+        lo = hi;
+        report.notes.extend(wave_out.notes.iter().cloned());
+        aborted.extend(wave_out.aborted);
+        let idxs: Vec<usize> = wave_out.runs.iter().map(|r| r.0).collect();
+        let runs: Vec<HistoryRun> = wave_out.runs.into_iter().map(|r| r.1).collect();
 
         t_impl += tw.elapsed().as_secs_f64();
         let tw = Instant::now();
@@ -1753,7 +1998,7 @@ fn main() {
                 None => {}
             }
             // a few real histories as samples: a long exhaustive one, and three random ones
-            let gi = global_idx + k;
+            let gi = idxs[k];
             // (exhaustive #342 = a; b extends a; a extends b: an extends cycle made by a replacement)
             let wanted = gi == 342 || gi == n_exh || gi == n_exh + n_random / 2 || gi == n_exh + n_random - 1;
             if wanted {
@@ -1772,7 +2017,6 @@ fn main() {
                 }));
             }
         }
-        global_idx += runs.len();
     }
     for s in samples {
         report.sample(s);
@@ -1782,6 +2026,27 @@ fn main() {
     if let Some(e) = &driver_error {
         report.notes.push(format!("model driver unavailable: {e}"));
         report.violation("model-mismatch", format!("model driver could not be run: {e}"), serde_json::json!({"stage": "driver", "error": e}));
+    }
+
+    // ---- calls that never returned (worker aborted or hung): shrink in workers, report
+    report.oracle_failures += aborted.len() as u64;
+    report.count_n("worker-death", aborted.len() as u64);
+    for (k, (h, status)) in aborted.iter().enumerate().take(3) {
+        let small = if k < 2 {
+            shrink(h.clone(), &|d: &History| run_fixed_safe(d, thorough).failures.iter().any(|x| x.kind == "abort"))
+        } else {
+            h.clone()
+        };
+        let run = run_fixed_safe(&small, thorough);
+        report.violation(
+            "property",
+            format!(
+                "a registration call must end in Ok or Err and leave the instance usable: the engine did not return (worker {status}) on the last call of this history ({} steps, {} templates in the last batch)",
+                small.steps.len(),
+                match small.steps.last() { Some(Step::Add(items)) => items.len(), _ => 0 }
+            ),
+            replay_json(&small, &run, None, serde_json::json!({"oracle": "abort", "worker": status})),
+        );
     }
 
     // ---- direct-oracle failures: shrink, report as violations of the property
@@ -1801,8 +2066,8 @@ fn main() {
     for i in order.into_iter().take(4) {
         let (h, f) = &oracle_failed[i];
         let kind = f.kind.clone();
-        let small = shrink(h.clone(), &|d: &History| run_fixed(d, &[], thorough, false).failures.iter().any(|x| x.kind == kind));
-        let run = run_fixed(&small, &[], thorough, false);
+        let small = shrink(h.clone(), &|d: &History| run_fixed_safe(d, thorough).failures.iter().any(|x| x.kind == kind));
+        let run = run_fixed_safe(&small, thorough);
         let model = model_for(&exe, &small).ok();
         let first = run.failures.iter().find(|x| x.kind == kind).cloned().unwrap_or_else(|| f.clone());
         let what = match kind.as_str() {
@@ -1820,7 +2085,7 @@ fn main() {
         for (h, step, what) in mismatched.iter().take(3) {
             let found: RefCell<Option<(History, Failure)>> = RefCell::new(None);
             let small = shrink(h.clone(), &|d: &History| {
-                let run = run_fixed(d, &[], thorough, false);
+                let run = run_fixed_safe(d, thorough);
                 if let Some(f) = run.failures.first() {
                     found.borrow_mut().get_or_insert((d.clone(), f.clone()));
                 }
@@ -1830,7 +2095,7 @@ fn main() {
                 }
             });
             if let Some((d, f)) = found.into_inner() {
-                let run = run_fixed(&d, &[], thorough, false);
+                let run = run_fixed_safe(&d, thorough);
                 let model = model_for(&exe, &d).ok();
                 report.oracle_failures += 1;
                 report.violation(
@@ -1840,7 +2105,7 @@ fn main() {
                 );
                 continue;
             }
-            let run = run_fixed(&small, &[], thorough, false);
+            let run = run_fixed_safe(&small, thorough);
             let model = model_for(&exe, &small).ok();
             let diffs = model.as_ref().map(|m| model_diffs(&run.recs, m)).unwrap_or_default();
             let desc = diffs.first().map(|(i, w)| format!("step {i}: {w}")).unwrap_or_else(|| format!("step {step}: {what}"));
